@@ -1,6 +1,7 @@
 """C06: typed Builder stores and Slice loads are mutually inverse and bit-exact (TL-B encodings)."""
 from ..gen import cells as G
 from ..gen import scripts as S
+from ..translate import arith
 
 SPEC = dict(
     manifest=dict(
@@ -11,14 +12,17 @@ SPEC = dict(
              '(c06_bits_exact); the matching load on that encoding followed by any continuation returns the value and leaves exactly the continuation '
              '(c06_store_load, c06_decode_encode); any list of values stored into an empty builder loads back equal with nothing left '
              '(c06_sequence, induction); whenever load_X returns, preload_X returns the same and leaves the slice unchanged (c06_preload_eq_load, '
-             'every kind incl. preload_address); var-int length prefixes are minimal for both signs (c06_varint_minimal); snake chains: see c06_snake*. '
+             'every kind incl. preload_address); var-int length prefixes are minimal for both signs (c06_varint_minimal) and the byte-length computations of store_var_uint/store_var_int are '
+             're-translated from builder.py on every run and proved equal to the TL-B minimal lengths for ALL integers (c06_src_varint_len, c06_src_varuint_len); snake chains: see c06_snake*. '
              'The model is tied to the working tree by differential testing: seeded scripts run on the library and on the compiled model, and '
              'each script is also checked on the library alone against an independent Python TL-B encoder, peek/load round trip and leftovers.',
         level_note='Proved for all inputs: the statements above, about Model/Builder.lean. Only sampled: that builder.py/slice.py/tvm_bitarray.py/'
                    'address.py behave as the model (correspondence on generated scripts; bitarray int2ba/ba2int/slicing and str.encode/decode are '
                    'assumed as modelled). Not modelled: load_dict parses the referenced HashMap (C09), str<->UTF-8, Python recursion limit for very '
                    'long snake chains. Trusted: Spec/TlbPrim.lean + Spec/TlbVal.lean say what TL-B says; Lean kernel; harness/gen/scripts.py.',
-        technique='Lean 4 proof (hand model, OpSpec calculus + closed forms of the slice reads) + differential correspondence with the library'),
+        technique='Lean 4 proof (hand model, OpSpec calculus + closed forms of the slice reads) + differential correspondence with the library '
+                  '+ source-regenerated arithmetic lemmas'),
+    translators=[('builder.py var-int byte lengths->Generated/VarLen.lean', arith.regenerator('VarLen'))],
     design_ref='DESIGN.md §6 C06',
     rule='seeded sequences of typed values that fit a cell (ints of widths 1..257 at 0/1/max/top-bit/min/-1, var-ints of every byte-length '
          'class incl. top-bit-set values, coins, bits, bytes, refs, maybe-refs, addr_none/extern(len 0..511)/std(+anycast)), snake byte strings '
@@ -26,7 +30,8 @@ SPEC = dict(
          'store_snake_string with and without prefix; each stored, compared bit-for-bit with an independent TL-B encoder, peeked and loaded back, and run through '
          'the Lean model; distinct = distinct script; non-trivial = script has >= 1 value',
     trusted_base=['Model/Builder.lean mirrors builder.py/slice.py/TvmBitarray/address.to_cell by hand (BOp/SOp state functions)',
-                  'bitarray int2ba/ba2int/slicing semantics as modelled (probed)', 'harness/gen/scripts.py: op tokens, executors, TL-B encoder'],
+                  'bitarray int2ba/ba2int/slicing semantics as modelled (probed)', 'harness/gen/scripts.py: op tokens, executors, TL-B encoder',
+                  'harness/translate/pyarith.py + arith.py (Python int arithmetic -> Lean) and lean/TonVerif/PyInt.lean (meaning of bit_length / math.ceil(a / 8)) for the c06_src_* theorems'],
     assumptions=['correspondence is sampled differential testing', 'str.encode/decode are inverse on valid UTF-8 (strings are modelled as bytes)'],
 )
 
@@ -218,9 +223,34 @@ def api_extras(ctx):
                 ctx.fail('addr-str', 'store_address(str) differs', {'addr': p}, b.bits.to01(), want)
 
 
+def src_search(ctx, cells):
+    """Search mode only: the values on which a regenerated definition (Generated/VarLen.lean) differs from the TL-B minimal
+    length it is proved equal to, stored and loaded back through the oracle.  True = a concrete failing input was found."""
+    found = arith.search_points(ctx, ['VarLen'])
+    n0 = len(ctx.failures)
+    toks = []
+    for name, kind in (('varUintIsZero', 'vu'), ('varUintByteLen', 'vu'), ('varIntIsZero', 'vi'), ('varIntByteLen', 'vi')):
+        for pt in found.get(name) or []:
+            toks += [f'{kind}:{pt["value"]}:{k}' for k in (4, 5, 7)]
+            if kind == 'vu' and pt['value'] >= 0:
+                toks.append(f'c:{pt["value"]}')
+    if found.get('coinsLenBits'):
+        toks += [f'c:{v}' for v in (0, 1, 255, 256, 10 ** 9, (1 << 120) - 1)]
+    for t in toks:
+        try:
+            fits = len(S.enc_tok(t, cells)[0]) <= 1023
+        except (AssertionError, ValueError):
+            fits = False
+        if fits:
+            check_roundtrip(ctx, LEAF_DAG, cells, [t], 'src-varlen')
+    return len(ctx.failures) > n0
+
+
 def run(ctx):
     rng = ctx.rng
     cells = G.lib_build(LEAF_DAG)
+    if ctx.search and src_search(ctx, cells):
+        return
     # context with a real dictionary cell (HashMap(8), 3 entries) for store_dict / load_dict / preload_dict
     ddag = LEAF_DAG + S.shift_dag(S.dict_dag(), len(LEAF_DAG))
     dcells = G.lib_build(ddag)
